@@ -1,4 +1,5 @@
 import Pyrtma.Proofs.Manager
+import Pyrtma.Proofs.ManagerClose
 /-!
 # C07 — a departed client leaves no trace
 
@@ -125,7 +126,55 @@ theorem closed_notice_describes (cfg : Cfg) (m : Module) :
     (closedFrame cfg m).mtype = cfg.mtClosed ∧ (closedFrame cfg m).src = 0 ∧ (closedFrame cfg m).dest = 0 :=
   ⟨rfl, rfl, rfl, rfl⟩
 
+/-! ### Globally: for every history (any rounds, readiness sets, socket failures, frames), in the state reached -/
+
+/-- **A connection is closed at most once** — whatever combination of read-side and write-side discoveries, nested
+removals and log forwards happened (`closeCnt` counts the `close` events of connection `u` in the whole event log). -/
+theorem closed_at_most_once (cfg : Cfg) (rs : List Round) (u : Nat) : closeCnt (run cfg rs).out u ≤ 1 := by
+  have := (run_J cfg rs).phi u
+  unfold phi at this; omega
+
+/-- a connection that is still in the table with an open socket has never been closed, and one that was closed is not in
+the table with an open socket any more (its uid is never handed out again: `nextUid` only grows) -/
+theorem open_iff_never_closed (cfg : Cfg) (rs : List Round) (u : Nat) (h : isOpen (run cfg rs) u = true) :
+    closeCnt (run cfg rs).out u = 0 := by
+  have := (run_J cfg rs).phi u
+  unfold phi at this; rw [h] at this; simp at this; omega
+
+theorem closed_stays_closed (cfg : Cfg) (rs : List Round) (u : Nat) (h : 0 < closeCnt (run cfg rs).out u) :
+    isOpen (run cfg rs) u = false ∧ u ≤ (run cfg rs).nextUid := by
+  have := (run_J cfg rs).phi u
+  unfold phi at this
+  constructor
+  · cases ho : isOpen (run cfg rs) u with
+    | false => rfl
+    | true => rw [ho] at this; simp at this; omega
+  · by_cases hn : (run cfg rs).nextUid < u
+    · simp only [hn, if_true] at this; omega
+    · omega
+
+/-- nothing is closed before it was accepted -/
+theorem never_accepted_never_closed (cfg : Cfg) (rs : List Round) (u : Nat) (h : (run cfg rs).nextUid < u) :
+    closeCnt (run cfg rs).out u = 0 := by
+  have := (run_J cfg rs).phi u
+  unfold phi at this; simp only [h, if_true] at this; omega
+
+/-- **The manager stops treating a departed client as a recipient at once and for good**: split the event log of any
+history anywhere after the close of connection `u`; in the rest there is no write, no partial write and no failed write on
+`u` — not for the frame during whose delivery the failure was discovered, not for a notice, a log message, an
+acknowledgement or a statistics frame, not in any later round. -/
+theorem nothing_after_close (cfg : Cfg) (rs : List Round) (u : Nat) (a b : List Ev)
+    (h : (run cfg rs).out = a ++ b) (hc : 0 < closeCnt a u) : ∀ e ∈ b, touches u e = false :=
+  NS_split ((run_J cfg rs).ns u) a b h hc
+
 /-! ### Non-vacuity -/
+/-- a history in which connection 1 is accepted, resets while its header is read, and connection 2 lives on -/
+def exRounds : List Round :=
+  [{ accept := true }, { accept := true }, { reads := [{ uid := 1, hdrErr := true }], writable := [1, 2] },
+   { reads := [{ uid := 2, h := { mtype := 1234, nbytes := 0 } }], writable := [2] }]
+example : closeCnt (run {} exRounds).out 1 = 1 ∧ closeCnt (run {} exRounds).out 2 = 0 ∧
+          isOpen (run {} exRounds) 2 = true ∧ isOpen (run {} exRounds) 1 = false := by decide
+
 def exState : State :=
   { mods := [{ uid := 0, connected := true }, { uid := 1, modId := 10, connected := true, subs := [5000], isLogger := true },
              { uid := 2, modId := 11, connected := true, subs := [33] }],
